@@ -5,6 +5,8 @@ import RaptorModel.Driver.C06
 import RaptorModel.Driver.C03
 import RaptorModel.Driver.C04
 import RaptorModel.Driver.C05
+import RaptorModel.Driver.C11
+import RaptorModel.Driver.Amg
 /-!
 `rmdrv <casefile>` — reads one case per line (`<prop> <op> <int> <int> ...`), runs the executable
 model and the decidable specification predicates, prints one verdict line per case:
@@ -21,6 +23,10 @@ def dispatch (prop op : String) (a : Array Int) : Verdict :=
   | "C03" => C03.run op a
   | "C04" => C04.run op a
   | "C05" => C05.run op a
+  | "C11" => C11.run op a
+  | "C09" => Amg.run prop op a
+  | "C01" => Amg.run prop op a
+  | "C10" => Amg.run prop op a
   | _ => badCase s!"unknown property {prop}"
 
 def parseLine (line : String) : Option (String × String × Array Int) :=
